@@ -295,6 +295,10 @@ impl Bundle {
         // If `bsk` is set on either bundle, the IO Finalizer has run, which means we
         // cannot have differing numbers of spends or outputs, and the value balances must
         // match.
+        // Keep a `bsk` that only the other bundle carries (a differing one is rejected below).
+        if self.bsk.is_none() {
+            self.bsk = bsk;
+        }
         match (self.bsk.as_mut(), bsk) {
             (Some(lhs), Some(rhs)) if lhs != &rhs => return None,
             (Some(_), _) | (_, Some(_))
